@@ -459,11 +459,6 @@ class VM:
             return mk_bool(z3.bveq(x, y))
         return mk_bool({ast.Lt: z3.ULT(x, y), ast.LtE: z3.ULE(x, y), ast.Gt: z3.ULT(y, x), ast.GtE: z3.ULE(y, x)}[t])
 
-    def new_run(self, name, lo=0, hi=None):
-        ln = self.new_int(name + '.len', lo, hi)
-        self.fresh += 1
-        return SBytes([Run(f'{name}!{self.fresh}', 0, ln.e)])
-
     # ------------------------------------------------------------ truth / compare
     def truth(self, v):
         if isinstance(v, SBool):
@@ -792,6 +787,9 @@ class VM:
             if mm is not None:
                 return mm(self, fn.__self__, args, kwargs)
         if isinstance(fn, BoundModel):
+            if type(fn.obj) in self.PLAIN and not deep_sym(args) and not deep_sym(kwargs) and fn.name is not None \
+                    and not any(isinstance(a, SymText) for a in args):
+                return getattr(fn.obj, fn.name)(*args, **kwargs)     # nothing symbolic: the real method
             return fn.model(self, fn.obj, args, kwargs)
         if isinstance(fn, types.FunctionType):
             if hasattr(fn, '__wrapped__') and not self.is_interp_callable(fn):
@@ -1024,8 +1022,10 @@ class VM:
                 return self.call(self.static_lookup(type(d), '__get__'), [d, o, t], {})
         mm = self.method_model_for(o, name) if not isinstance(o, type) else None
         if mm is not None:
-            return BoundModel(mm, o)
+            return BoundModel(mm, o, name)
         return getattr(o, name)
+
+    PLAIN = (str, bytes, bytearray, int)
 
     def setattr(self, o, name, v):
         t = type(o)
@@ -1881,9 +1881,10 @@ NOOP = NoOp()
 
 
 class BoundModel:
-    def __init__(self, model, obj):
+    def __init__(self, model, obj, name=None):
         self.model = model
         self.obj = obj
+        self.name = name
 
 
 class _Missing:
